@@ -437,6 +437,16 @@ func e4GenUniverse(r *rand.Rand, tier string) *e4Scenario {
 		}
 		sc.Projects = append(sc.Projects, p)
 	}
+	// two projects whose paths differ only in how an upper-case letter is written ("netIO",
+	// "net!i!o": cache directory names that escape letters must keep them apart)
+	if r.IntN(8) == 0 && len(sc.Projects) >= 2 {
+		a, b := &sc.Projects[0], &sc.Projects[1]
+		a.Sub, b.Sub, b.Repo, b.Major = "netIO", "net!i!o", a.Repo, a.Major
+		b.Versions = nil
+		for _, v := range a.Versions {
+			b.Versions = append(b.Versions, e4Version{Version: v.Version, Name: "other"})
+		}
+	}
 	// requirement edges of any shape (cycles included)
 	type node struct{ p, v int }
 	var nodes []node
